@@ -159,6 +159,30 @@ pub fn call_stream_builtin(m: &mut Model, site: &ScopeRef, name: &str, mut args:
                 _ => throw("argument error: lazy hof"),
             }
         }
+        "lazy_zip" => {
+            // streams only (at least one), at most one function
+            if args.len() < 2 {
+                return unknown("lazy_zip partial application");
+            }
+            let mut f: Option<Rc<FuncV>> = None;
+            let mut members = Vec::new();
+            for a in args.iter() {
+                match a {
+                    V::Func(g) => {
+                        if f.is_some() {
+                            return throw("argument error: lazy_zip: more than one function");
+                        }
+                        f = Some(g.clone());
+                    }
+                    V::Stream(s) => members.push(s.clone()),
+                    _ => return throw("argument error: lazy_zip: not stream"),
+                }
+            }
+            if members.is_empty() {
+                return throw("argument error: lazy_zip: zero streams");
+            }
+            Ok(V::Stream(StreamV::Zip(members, f)))
+        }
         "permutations" => {
             if args.len() != 1 {
                 return throw("type error: expected one argument");
